@@ -541,20 +541,20 @@ impl Connection {
             chunk.start_timeout(cb);
         }
         while i < online.resend_queue.len() {
-            let can_fit;
+            let index = online.resend_queue.len() - i - 1;
+            // Like `send`: make room if necessary, then queue unconditionally
+            // (a chunk that does not fit into an empty packet never will).
+            if !online
+                .packet
+                .can_fit_chunk(&online.resend_queue[index].data, true)
             {
-                let chunk = &online.resend_queue[online.resend_queue.len() - i - 1];
-                can_fit = online.packet.can_fit_chunk(&chunk.data, true);
-                if can_fit {
-                    let vital = (chunk.sequence.to_u16(), true);
-                    online.packet.write_chunk(&chunk.data, Some(vital));
-                    i += 1;
-                }
-            }
-            if !can_fit {
                 self.send.set(cb, Duration::from_millis(500));
                 online.flush(cb, &mut self.builder)?;
             }
+            let chunk = &online.resend_queue[index];
+            let vital = (chunk.sequence.to_u16(), true);
+            online.packet.write_chunk(&chunk.data, Some(vital));
+            i += 1;
         }
         Ok(())
     }
